@@ -87,6 +87,29 @@ def store(cont, wpath, compress, data, work):
     if wpath == 'streamed_to_pack_batch':
         return cont.add_streamed_objects_to_pack([io.BytesIO(neighbours[0]), io.BytesIO(data), io.BytesIO(neighbours[1])],
                                                  compress=compress)[1]
+    if wpath == 'streamed_to_pack_intruder':
+        # while this call holds the pack (between two reads of its second stream) another handle tries to write to the same
+        # pack: it must be refused (the pack is locked) and must not disturb what this call stores
+        from disk_objectstore import Container  # pylint: disable=import-outside-toplevel
+        folder = str(cont.get_folder())
+
+        class Intruded(io.BytesIO):
+            tried = False
+
+            def read(self, n=-1):
+                if not Intruded.tried:
+                    Intruded.tried = True
+                    other = Container(folder)
+                    try:
+                        other.add_objects_to_pack([b'intruder-' * 9, b'second intruder object'], compress=compress)
+                    except FileExistsError:
+                        pass
+                    finally:
+                        other.close()
+                return super().read(n)
+
+        return cont.add_streamed_objects_to_pack([io.BytesIO(neighbours[0]), Intruded(data), io.BytesIO(neighbours[1])],
+                                                 compress=compress)[1]
     if wpath == 'streamed_to_pack_lazy':
         paths = []
         for i, blob in enumerate([neighbours[0], data]):
